@@ -29,3 +29,8 @@ def c08(tier, seed, mult):
 def c09(tier, seed, mult):
     return run_suite("S-TREE-OUT[C09]", seed + 4, _n(tier, 500, 6000, mult), struct=False, oracles=(oracles.C09,),
                      gen_kw={"allow": ("fit", "refine", "recluster", "setmerge", "setthr", "delint")})
+
+
+def c07(tier, seed, mult):
+    return run_suite("S-TREE-OUT[C07]", seed + 5, _n(tier, 500, 6000, mult), struct=False,
+                     gen_kw={"allow": ("fit", "setmerge", "setthr", "setbf", "reset"), "malformed": 0.0})
